@@ -51,7 +51,7 @@ def make_recipe(rng, tier):
     nmax = 70 if tier == "quick" else (300 if rng.random() < 0.05 else 100)
     n = nmin if r < 0.06 else int(rng.integers(nmin, max(nmin + 1, nmax)))
     kind = ["mean_changes", "weak_changes", "noise", "small_alphabet", "piecewise_const", "spikes",
-            "var_changes", "dyadic"][int(rng.integers(8))]
+            "var_changes", "dyadic", "flat", "steps"][int(rng.integers(10))]
     X, _ = gen_data(rng, n, p, kind, boundary=spec["kw"]["min_segment_length"])
     int_dtype = bool(rng.random() < 0.15)
     if int_dtype:
